@@ -7,6 +7,7 @@ import (
 	"encoding/hex"
 	"encoding/json"
 	"fmt"
+	"net/http"
 	"net/url"
 	"os"
 	"reflect"
@@ -40,8 +41,9 @@ type Scenario struct {
 	MapPolicy  int     `json:"map_policy"`
 	SkipAlone  bool    `json:"skip_alone,omitempty"`
 	Typed      bool    `json:"typed,omitempty"`
-	Override   bool    `json:"override,omitempty"` // typed scenarios: every call overrides the server URL with one URL value shared by all calls
-	Prefix     string  `json:"prefix,omitempty"`   // typed scenarios: the server is mounted under this path prefix and the client is given the matching base URL
+	CustomNF   bool    `json:"custom_nf,omitempty"` // typed scenarios: the server has the user's own NotFound and MethodNotAllowed handlers
+	Override   bool    `json:"override,omitempty"`  // typed scenarios: every call overrides the server URL with one URL value shared by all calls
+	Prefix     string  `json:"prefix,omitempty"`    // typed scenarios: the server is mounted under this path prefix and the client is given the matching base URL
 }
 
 // Result of one scenario.
@@ -152,7 +154,12 @@ func runPhase(t *testing.T, sc *Scenario, tasks [][]Call, faults, trivial bool, 
 				return
 			}
 			impls = tp.Impls
-			h, cl, whc, err := tp.New(sc.Prefix, typedHandler(tp.Impls), typedNewError, typedFill, typedSecSaw, tr, SimErrorHandler, typedMiddleware, secondMiddleware)
+			var nf http.HandlerFunc
+			var mna func(http.ResponseWriter, *http.Request, string)
+			if sc.CustomNF {
+				nf, mna = customNotFound, customMethodNotAllowed
+			}
+			h, cl, whc, err := tp.New(sc.Prefix, typedHandler(tp.Impls), typedNewError, typedFill, typedSecSaw, tr, SimErrorHandler, nf, mna, typedMiddleware, secondMiddleware)
 			if err != nil {
 				res.trouble = err.Error()
 				return
